@@ -11,3 +11,4 @@ CONSTANTS
   MaxDepth = 4
   Emit = TRUE
   CheckDump = FALSE
+  ExcuseKnown = TRUE
